@@ -149,6 +149,16 @@ def run(tier):
         ex = rnd.sample(ex, 150000)
     eitems = [("void f(void){ %s; }" % " ".join(e["toks"]), "expr") for e in ex]
     run_population(ctx, eitems, "expressions", rnd, 1000 if tier == "quick" else 10000)
+    # declarations of spec/CDecl.tla (all declarator trees of <=3 derivations, named and abstract, qualified pointers,
+    # array / function suffixes) in their 10 contexts: the generator has to put back exactly the parentheses 6.7.5 needs
+    from . import c03
+    dcases = c03.enumerate_decls(ctx, "CDecl declarators<=3 x 7 contexts", deriv=3)
+    dcases += c03.enumerate_decls(ctx, "CDecl declarators<=2 x bases x qualifiers", deriv=2,
+                                  bases=["int", "tdef", "sref", "sdef", "edef"], squals=c03.QUALSETS, dims=["none", "3", "star"],
+                                  params=["empty", "int_p"])
+    dcases = rnd.sample(dcases, min(len(dcases), 5000 if tier == "quick" else 60000))
+    ditems = [(src, "cdecl:" + label) for c in dcases for label, src, get in c03.render(c)]
+    run_population(ctx, ditems, "declarations", rnd, 500 if tier == "quick" else 5000)
     citems = [(txt, "corpus:" + name) for name, txt in corpus.preprocessed(None)]
     run_population(ctx, citems, "corpus", rnd, len(citems))
     from .c12 import GEN_PROGRAMS
